@@ -284,6 +284,9 @@ pub enum DivKind {
     Value,
     /// values agree, the timed cycle list differs
     Timing,
+    /// values agree, but the two CPUs sampled the interrupt lines a different number of times
+    /// (a sequencing matter: C02's business only)
+    Sampling,
 }
 
 #[derive(Clone, Debug)]
@@ -340,6 +343,9 @@ pub struct WorldA {
     pub steps: usize,
     /// the two memories may differ (a step was executed by one side only, or diverged)
     pub dirty: bool,
+    /// compare the "next boundary is not sampled" flag (sequencing state, C02 only); when false the
+    /// reference adopts the implementation's flag after every step
+    pub compare_control: bool,
 }
 
 pub struct StepOutcome {
@@ -347,6 +353,7 @@ pub struct StepOutcome {
     pub ambiguous: bool,
     pub div: Option<Divergence>,
     pub timing_div: Option<Divergence>,
+    pub sampling_div: Option<Divergence>,
     pub pre: CpuState,
     pub post: CpuState,
     pub ev_impl: Vec<Ev>,
@@ -359,7 +366,7 @@ impl WorldA {
         let mut cpu = Z80::default();
         state.to_impl(&mut cpu);
         let rcpu = state.to_ref();
-        WorldA { cpu, bus: SimBus::new(out.clone()), rcpu, rbus: RBus { out, ev: vec![], t: 0 }, steps: 0, dirty: false }
+        WorldA { cpu, bus: SimBus::new(out.clone()), rcpu, rbus: RBus { out, ev: vec![], t: 0 }, steps: 0, dirty: false, compare_control: true }
     }
 
     /// Re-initialises both CPUs and the line schedule for an independent case on the same memories.
@@ -408,7 +415,7 @@ impl WorldA {
         if info.ambiguous.is_some() {
             self.dirty = true;
             let post = CpuState::from_ref(&self.rcpu);
-            return StepOutcome { info, ambiguous: true, div: None, timing_div: None, pre, post, ev_impl: vec![], sampled, lines };
+            return StepOutcome { info, ambiguous: true, div: None, timing_div: None, sampling_div: None, pre, post, ev_impl: vec![], sampled, lines };
         }
         // implementation: one emulate() per prefix-chain link
         self.cpu.emulate(&mut self.bus);
@@ -438,10 +445,14 @@ impl WorldA {
             if info.page == Page::ED && info.variant == 1 && (0xB0..=0xBB).contains(&info.opcode) {
                 pi.q = post_r.q;
             }
+            if !self.compare_control {
+                pi.no_sample = post_r.no_sample;
+            }
             pi.diff(&post_r, 0)
         } {
             what = Some(format!("{} = {:04X}, reference {:04X} after the instruction", name, a, b));
         } else if self.bus.out.samples != self.rbus.out.samples {
+            kind = DivKind::Sampling;
             what = Some(format!(
                 "interrupt sampling opportunities differ: impl sampled {} times, reference {} times",
                 self.bus.out.samples - samples_before,
@@ -455,7 +466,8 @@ impl WorldA {
         }
         let mut div = None;
         let mut timing_div = None;
-        if what.is_some() {
+        let mut sampling_div = None;
+        if what.is_some() && kind != DivKind::Sampling {
             self.dirty = true;
         }
         // Q after a repeating block iteration: hardware behaviour not established by the model's
@@ -463,6 +475,9 @@ impl WorldA {
         // self-modifying block copy cannot turn it into a later flag divergence.
         if info.page == Page::ED && info.variant == 1 && (0xB0..=0xBB).contains(&info.opcode) {
             self.rcpu.q = post_i.q;
+        }
+        if !self.compare_control {
+            self.rcpu.no_sample = post_i.no_sample;
         }
         if let Some(w) = what {
             // build the single-instruction scenario: pre-state + every byte either side read before writing it
@@ -509,13 +524,17 @@ impl WorldA {
                 single,
                 lines_involved: accepted || lines.0 || lines.1,
             };
-            if kind == DivKind::Value {
-                div = Some(d);
-            } else {
-                timing_div = Some(d);
+            match kind {
+                DivKind::Value => div = Some(d),
+                DivKind::Timing => timing_div = Some(d),
+                DivKind::Sampling => {
+                    sampling_div = Some(d);
+                    // keep the two line schedules aligned for the rest of the run
+                    self.bus.out.samples = self.rbus.out.samples;
+                }
             }
         }
-        StepOutcome { info, ambiguous: false, div, timing_div, pre, post: post_r, ev_impl: self.bus.ev.clone(), sampled, lines }
+        StepOutcome { info, ambiguous: false, div, timing_div, sampling_div, pre, post: post_r, ev_impl: self.bus.ev.clone(), sampled, lines }
     }
 }
 
